@@ -401,6 +401,47 @@ def _rank(e, env):
     return None
 
 
+def p6b(repo, res):
+    """P6b the constructor makes both pose paths equally long for every ordering of their lengths: the padding branches of
+    `_init_position_orientation` compare the two lengths with each other (finite orderings <, =, >) and cover both `>` and `<`;
+    a branch on a literal length (`len_ori == 1`) leaves 1 < len_ori < len_pos unpadded"""
+    geo = repo.cls("BaseGeo")
+    fn = geo.methods.get("_init_position_orientation")
+    res.require(fn is not None, "anchor vanished: BaseGeo._init_position_orientation")
+    lens = {}
+    for s_ in ast.walk(fn):
+        if isinstance(s_, ast.Assign) and len(s_.targets) == 1 and isinstance(s_.targets[0], ast.Name):
+            t = ast.unparse(s_.value)
+            if t.endswith(".shape[0]") or t.startswith("len("):
+                lens[s_.targets[0].id] = t
+    covered = set()
+    lit_branches = []
+    for iff in ast.walk(fn):
+        if isinstance(iff, ast.If) and isinstance(iff.test, ast.Compare) and len(iff.test.ops) == 1:
+            a, b, op = iff.test.left, iff.test.comparators[0], iff.test.ops[0]
+            pads = any(isinstance(c, ast.Call) and getattr(c.func, "attr", "") in ("pad", "tile", "repeat", "concatenate") for c in ast.walk(ast.Module(body=iff.body, type_ignores=[])))
+            if not pads:
+                continue
+            if isinstance(a, ast.Name) and isinstance(b, ast.Name) and {a.id, b.id} <= set(lens):
+                if isinstance(op, (ast.Gt, ast.Lt, ast.NotEq)):
+                    first = min(lens)      # canonical order of the two names
+                    if isinstance(op, ast.NotEq):
+                        covered |= {"<", ">"}
+                    else:
+                        gt = isinstance(op, ast.Gt)
+                        covered.add(">" if (gt == (a.id == first)) else "<")
+            elif (isinstance(a, ast.Name) and a.id in lens and isinstance(b, ast.Constant)) or (isinstance(b, ast.Name) and b.id in lens and isinstance(a, ast.Constant)):
+                lit_branches.append(iff)
+    res.require(len(lens) >= 2, "anchor vanished: the two path lengths in _init_position_orientation")
+    ok = covered == {"<", ">"}
+    res.ob("P6b:constructor pads for both orderings of the path lengths", ok, {"rule": "P6b", "lengths": lens, "orderings_padded": sorted(covered), "branches_on_literal_lengths": len(lit_branches)})
+    if not ok:
+        res.add(Finding("P6b", geo.mod.rel, "BaseGeo._init_position_orientation", lit_branches[0] if lit_branches else fn,
+                        f"the padding branches cover only the orderings {sorted(covered)} of position-path length vs orientation-path length"
+                        + (" (a branch tests a literal length instead)" if lit_branches else "") + ": for the uncovered ordering the object is created with unequal path lengths",
+                        (lit_branches[0] if lit_branches else fn).lineno))
+
+
 def p7(repo, res):
     """P7: `rotate(None)` / `orientation=None` is the *single* identity rotation: in check_format_input_orientation the value of
     inpQ on the None path has rank 1 (a stack of one rotation is a path operation: it appends instead of applying to the whole path)"""
@@ -440,7 +481,7 @@ def p7(repo, res):
 
 
 def run(repo, res, tier):
-    res.rules = ["P1 composition/anchoring (FRAME)", "P2 rotate_from_* delegation", "P3 reject-before-mutate", "P4 paired pose writes / who-may-write", "P5 in-place pose writes", "P6 one padding computation",
+    res.rules = ["P1 composition/anchoring (FRAME)", "P2 rotate_from_* delegation", "P3 reject-before-mutate", "P4 paired pose writes / who-may-write", "P5 in-place pose writes", "P6 one padding computation", "P6b constructor pads for both length orderings",
                  "P7 None is the single identity rotation", "P8 no read-only view becomes a pose path"]
     frame_rules.c09_p1(repo, res)
     p2(repo, res)
@@ -448,6 +489,7 @@ def run(repo, res, tier):
     p4(repo, res)
     p4b(repo, res)
     p6(repo, res)
+    p6b(repo, res)
     p7(repo, res)
     import rules_roview
     rules_roview.run(repo, res, 'P8')
